@@ -63,7 +63,7 @@ def warm():
 def run_c07(t, tier, res):
     enc = t.choice(trainer.ENCODINGS)
     flavour = {"encoding": enc, "nonascii": True, "hostile": True, "nonbmp": enc == "utf-8" and t.chance(1, 3),
-               "sites": t.chance(1, 4)}
+               "sites": t.chance(1, 4), "zoo": enc == "utf-8" and t.chance(1, 3)}
     pws, opts = trainer.gen_list(t, flavour)
     # splice hostile characters into words as well
     for i in range(len(pws)):
@@ -220,7 +220,7 @@ def is_hex_literal(p):
 
 
 def gen_logical_list(t, enc):
-    flavour = {"encoding": enc, "nonascii": t.chance(1, 2)}
+    flavour = {"encoding": enc, "nonascii": t.chance(1, 2), "zoo": enc == "utf-8" and t.chance(1, 4)}
     pws, opts = trainer.gen_list(t, flavour, min_lines=3, max_lines=25)
     extras = [" lead", "trail ", "in ner", "  ", "$HEX[41", "x$HEX[41]", "$hex[41]", "a]b", "$HEX", "12 34", "3 cats"]
     for _ in range(t.draw(4)):
